@@ -23,6 +23,34 @@ import mutants  # noqa: E402
 PROPS = ["C%02d" % i for i in range(1, 19)]
 
 
+_BASELINES = {}
+
+
+def baseline(repo, commit, props):
+    """Violation keys the checks report on the bare tree of an earlier commit (defects repaired since by `fix:` commits)."""
+    if commit in _BASELINES:
+        return _BASELINES[commit]
+    scratch = tempfile.mkdtemp(prefix="fbbase.")
+    res = {}
+    try:
+        root = os.path.join(scratch, "repo")
+        os.makedirs(root)
+        subprocess.run("git -C %s archive %s | tar x -C %s" % (repo, commit, root), shell=True, check=True)
+
+        def one(p):
+            ev = os.path.join(scratch, "ev-" + p)
+            rr = subprocess.run([sys.executable, os.path.join(HERE, "run.py"), p, "--repo", root, "--tier", "quick",
+                                 "--evidence-dir", ev, "--no-mutants"], stdout=subprocess.PIPE, stderr=subprocess.STDOUT, text=True)
+            return p, {l.strip()[len("violated: "):].split("  at ")[0] for l in rr.stdout.splitlines() if l.strip().startswith("violated: ")}
+        with ThreadPoolExecutor(max_workers=9) as ex:
+            for p, vs in ex.map(one, PROPS):
+                res[p] = vs
+    finally:
+        shutil.rmtree(scratch, ignore_errors=True)
+    _BASELINES[commit] = res
+    return res
+
+
 def run_seed(d, repo="/repo", props=None):
     name = os.path.basename(d.rstrip("/"))
     meta = {}
@@ -34,7 +62,13 @@ def run_seed(d, repo="/repo", props=None):
     try:
         root = os.path.join(scratch, "repo")
         os.makedirs(root)
-        mutants.copy_tree(repo, root)
+        base = meta.get("base_commit")
+        if base:
+            # written against an earlier commit of /repo and overlapping a later `fix:` commit: applied to the tree it was written
+            # for; what the bare base tree itself violates (the defects repaired since) is subtracted below
+            subprocess.run("git -C %s archive %s | tar x -C %s" % (repo, base, root), shell=True, check=True)
+        else:
+            mutants.copy_tree(repo, root)
         r = subprocess.run(["patch", "-p1", "--no-backup-if-mismatch", "-i", os.path.join(d, "patch.diff")], cwd=root,
                            stdout=subprocess.PIPE, stderr=subprocess.STDOUT, text=True)
         if r.returncode != 0:
@@ -49,15 +83,23 @@ def run_seed(d, repo="/repo", props=None):
             anchor = [l.strip() for l in rr.stdout.splitlines() if "reason=anchor lost" in l]
             if "fact extraction failed" in rr.stdout:
                 return p, {"rc": rr.returncode, "error": "does not compile"}
-            return p, {"rc": rr.returncode, "violations": viol[:5] + anchor[:1]}
+            return p, {"rc": rr.returncode, "violations": viol + anchor[:1]}
         with ThreadPoolExecutor(max_workers=9) as ex:
             for p, res in ex.map(one, props or PROPS):
                 out[p] = res
+        if base:
+            bl = baseline(repo, base, props or PROPS)
+            for p in out:
+                if out[p]["rc"] == 1 and "error" not in out[p]:
+                    new_v = [v for v in out[p]["violations"] if v not in bl.get(p, set())]
+                    out[p]["violations"] = new_v
+                    if not new_v:
+                        out[p]["rc"] = 0
         reported = [p for p in out if out[p]["rc"] == 1]
         own = meta.get("property")
         return {"seed": name, "property": own, "status": "reported" if reported else "MISSED",
                 "caught_by_own_property": own in reported, "reported_by": reported,
-                "details": {p: out[p]["violations"] for p in reported}}
+                "details": {p: out[p]["violations"][:6] for p in reported}}
     finally:
         shutil.rmtree(scratch, ignore_errors=True)
 
